@@ -132,8 +132,9 @@ Proof. exact race_link_vs_terminate. Qed.
 Print Assumptions C04_race.
 
 (* The same for EVERY way a local target goes away: x ranges over unregisterProcess(p, r),
-   node.UnregisterName(n) (also process.UnregisterName), process.DeleteAlias(a) and
-   unregisterEvent(e) (process.UnregisterEvent), each transcribed as its atomic steps in program
+   node.UnregisterName(n) (also process.UnregisterName), process.DeleteAlias(a),
+   unregisterEvent(e) (process.UnregisterEvent) and the failure of ProcessInit of a process spawned
+   with a registered name (node.spawn, after commit a054107), each transcribed as its atomic steps in program
    order - table delete, then drain (C04_remover_programs).  Every schedule of the request's steps
    against the remover's steps ends in: error, no relation, nothing delivered; or nil and exactly one
    notification; or nil, relation kept, target still there. *)
@@ -193,7 +194,8 @@ Theorem C04_remover_programs : forall s n p a e q,
   remover_prog s (RmUnregName n) = [TDelName n q; TDrain (TName n me) r_unreg] /\
   remover_prog s (RmDeleteAlias p a) = [TDelAlias a; TDrain (TAlias me a) r_unreg] /\
   remover_prog s (RmUnregEvent p e) = [TDelEvent e; TDrain (TEvent e me) r_unreg] /\
-  remover_prog s (RmTerminate p r_kill) = term_prog s p r_kill.
+  remover_prog s (RmTerminate p r_kill) = term_prog s p r_kill /\
+  (forall r, remover_prog s (RmInitFail n r) = [TDelName n q; TDrain (TName n me) r]).
 Proof.
   intros s n p a e q A B C. unfold remover_prog. cbn [remover_prog_ord]. rewrite A, B, C. repeat split; reflexivity.
 Qed.
@@ -210,6 +212,14 @@ Proof.
     [apply unregister_name_drain_first_refuted | apply delete_alias_drain_first_refuted]].
 Qed.
 Print Assumptions C04_drain_before_delete_refuted.
+
+(* node.spawn before commit a054107: a failing ProcessInit deleted the registered name and drained
+   nothing (program [names.Delete] alone).  A link / monitor by that name taken during the
+   initialisation returns nil, keeps its relation on a name that no longer exists and is never
+   told - no race needed: the request runs to its end, then the name is deleted. *)
+Theorem C04_spawn_init_fail_refuted_before_fix : forall mon, init_fail_old_lost mon = true.
+Proof. exact spawn_init_fail_without_drain_refuted. Qed.
+Print Assumptions C04_spawn_init_fail_refuted_before_fix.
 
 (* non-vacuity: a concrete history (observer 1002 links and monitors process 1001 and its name, 1001
    is killed) reaches a state where the hypotheses hold and notifications are due and delivered;
